@@ -16,6 +16,12 @@ Reading of the source
   unless the raise is the only way out of an else-branch, in which case the branch yields `default_on_raise`;
 * `int(e)` truncates toward zero, `math.ceil`/`np.ceil` and `//` are exact on rationals, `round` is not accepted;
 * float literals are the exact doubles.
+* (round 4, for the level functions of cnvlib/segfilters.py) a table column `tbl["name"]` (optionally `.values`) is
+  read elementwise as the parameter `name`; `np.zeros(n)` / `np.zeros_like(x)` is the number 0 and `pd.Series(x)` /
+  `np.asarray(x)` / `np.array(x)` is `x` (elementwise reading); a masked plain assignment `x[mask] = v`, the mask
+  being a comparison (or `&` / `|` / `~` of comparisons, or a name bound to one), means "where mask holds, x
+  becomes v" -- a later assignment overrides an earlier one where both masks hold, as in numpy; a comparison with a
+  missing value (NaN) is outside the reading (the theorems about these functions assume the columns present).
 """
 from __future__ import annotations
 
@@ -67,7 +73,13 @@ class Fn:
             # elementwise reading of `array[mask]`
             if isinstance(e.value, ast.Name) and isinstance(e.slice, ast.Name):
                 return self.expr(e.value, env)
+            # a table column, read elementwise: `tbl["name"]`
+            if isinstance(e.value, ast.Name) and isinstance(e.slice, ast.Constant) and isinstance(e.slice.value, str) \
+                    and e.slice.value.isidentifier() and e.value.id not in env:
+                return self.param(e.slice.value)
             raise Untranslatable("subscript " + ast.unparse(e))
+        if isinstance(e, ast.Attribute) and e.attr == "values" and isinstance(e.value, ast.Subscript):
+            return self.expr(e.value, env)
         if isinstance(e, ast.UnaryOp):
             if isinstance(e.op, ast.USub):
                 return f"(-{self.expr(e.operand, env)})"
@@ -121,6 +133,10 @@ class Fn:
                 return f"(-{self.expr(args[0], env)})"
             if f == "np.where" and len(args) == 3:
                 return f"(if {self.cond(args[0], env)} then {self.expr(args[1], env)} else {self.expr(args[2], env)})"
+            if f in ("np.zeros", "np.zeros_like") and len(args) == 1 and not e.keywords:
+                return "(0 : Rat)"   # elementwise reading of a fresh all-zero vector
+            if f in ("pd.Series", "np.asarray", "np.array") and len(args) == 1 and not e.keywords:
+                return self.expr(args[0], env)
             if f == "len" and len(args) == 1 and isinstance(args[0], ast.Name):
                 return self.param(args[0].id + "_len")
             if f in ("math.ceil", "np.ceil") and len(args) == 1:
@@ -162,8 +178,11 @@ class Fn:
         if isinstance(e, ast.BoolOp):
             op = " ∧ " if isinstance(e.op, ast.And) else " ∨ "
             return "(" + op.join(self.cond(v, env) for v in e.values) + ")"
-        if isinstance(e, ast.UnaryOp) and isinstance(e.op, ast.Not):
+        if isinstance(e, ast.UnaryOp) and isinstance(e.op, (ast.Not, ast.Invert)):
             return f"(¬ {self.cond(e.operand, env)})"
+        if isinstance(e, ast.BinOp) and isinstance(e.op, (ast.BitOr, ast.BitAnd)):
+            op = " ∨ " if isinstance(e.op, ast.BitOr) else " ∧ "
+            return "(" + self.cond(e.left, env) + op + self.cond(e.right, env) + ")"
         if isinstance(e, ast.Compare):
             parts = []
             left = e.left
@@ -228,6 +247,13 @@ class Fn:
                     return self.block(rest, env)
                 env = dict(env)
                 env[t.id] = self.expr(s.value, env)
+                return self.block(rest, env)
+            if isinstance(t, ast.Subscript) and isinstance(t.value, ast.Name) and t.value.id in env \
+                    and isinstance(t.slice, (ast.Compare, ast.BoolOp, ast.BinOp, ast.UnaryOp, ast.Name)):
+                # masked plain assignment `x[mask] = v`: where the mask holds, x becomes v
+                c = self.cond(t.slice, env)
+                env = dict(env)
+                env[t.value.id] = f"(if {c} then {self.expr(s.value, env)} else {env[t.value.id]})"
                 return self.block(rest, env)
             raise Untranslatable("assignment to " + ast.unparse(t))
         if isinstance(s, ast.AugAssign):
